@@ -43,7 +43,41 @@ type worker struct {
 	runOpts  []gldap.Option
 	dir      *testdirectory.Directory
 	oldLimit syscall.Rlimit
+	parkMu   sync.Mutex
+	parkPat  string
+	parkCh   chan struct{}
 }
+
+// parkLogger is the logger handed to the server: silent, except that a log line containing
+// the armed pattern blocks its goroutine until released.  It lets a scenario hold gldap's own
+// goroutines at a chosen program point without touching gldap.
+type parkLogger struct {
+	hclog.Logger
+	w         *worker
+	stopDelay time.Duration // fixed before the server starts: read without any synchronisation
+}
+
+func (p *parkLogger) maybePark(msg string) {
+	if p.stopDelay > 0 && strings.Contains(msg, "waiting on connections to close") {
+		// Stop dawdles between its interrupt pass and connWg.Wait.  A delay, not a rendez-vous,
+		// and no lock on this path: nothing here may order Stop after another goroutine, or
+		// the race detector would take the two for synchronised.
+		time.Sleep(p.stopDelay)
+		return
+	}
+	p.w.parkMu.Lock()
+	pat, ch := p.w.parkPat, p.w.parkCh
+	p.w.parkMu.Unlock()
+	if pat != "" && strings.Contains(msg, pat) {
+		p.w.ev("parked %s", strings.ReplaceAll(msg, " ", "_"))
+		<-ch
+	}
+}
+func (p *parkLogger) Debug(msg string, args ...interface{}) { p.maybePark(msg) }
+func (p *parkLogger) Info(msg string, args ...interface{})  { p.maybePark(msg) }
+func (p *parkLogger) Warn(msg string, args ...interface{})  { p.maybePark(msg) }
+func (p *parkLogger) Error(msg string, args ...interface{}) { p.maybePark(msg) }
+func (p *parkLogger) Trace(msg string, args ...interface{}) { p.maybePark(msg) }
 
 func (w *worker) ev(format string, args ...interface{}) {
 	n := atomic.AddInt64(&w.seq, 1)
@@ -226,6 +260,20 @@ func cmdWorker(args []string) int {
 				fds = len(ents)
 			}
 			w.ev("stats goroutines=%d fds=%d", runtime.NumGoroutine(), fds)
+		case "logpark":
+			w.parkMu.Lock()
+			w.parkPat = strings.Join(f[1:], " ")
+			w.parkCh = make(chan struct{})
+			w.parkMu.Unlock()
+			w.ev("logpark armed")
+		case "logrelease":
+			w.parkMu.Lock()
+			if w.parkCh != nil {
+				close(w.parkCh)
+			}
+			w.parkPat, w.parkCh = "", nil
+			w.parkMu.Unlock()
+			w.ev("logpark released")
 		case "fdlimit":
 			// descriptor exhaustion: lower RLIMIT_NOFILE to the lowest free descriptor
 			// number, so that the next accept(2) fails with EMFILE; "fdlimit 0" restores it
@@ -276,7 +324,8 @@ func (w *worker) start(opts []string) {
 		return
 	}
 	var sopts []gldap.Option
-	sopts = append(sopts, gldap.WithLogger(hclog.New(&hclog.LoggerOptions{Level: hclog.Off})))
+	sd, _ := strconv.Atoi(o["stopdelay"])
+	sopts = append(sopts, gldap.WithLogger(&parkLogger{Logger: hclog.New(&hclog.LoggerOptions{Level: hclog.Off}), w: w, stopDelay: time.Duration(sd) * time.Millisecond}))
 	if o["recovery"] == "0" {
 		sopts = append(sopts, gldap.WithDisablePanicRecovery())
 	}
@@ -334,6 +383,25 @@ func (w *worker) start(opts []string) {
 		m := srvConf.Clone()
 		m.ClientAuth = tls.RequireAndVerifyClientCert
 		runOpts = append(runOpts, gldap.WithTLSConfig(m))
+	case "tls-getcert", "mtls-getcert":
+		// the certificate is supplied through GetCertificate instead of Certificates
+		m := srvConf.Clone()
+		cert := m.Certificates[0]
+		m.Certificates = nil
+		m.GetCertificate = func(*tls.ClientHelloInfo) (*tls.Certificate, error) { return &cert, nil }
+		if o["tls"] == "mtls-getcert" {
+			m.ClientAuth = tls.RequireAndVerifyClientCert
+		}
+		runOpts = append(runOpts, gldap.WithTLSConfig(m))
+	case "tls-getconfig", "mtls-getconfig":
+		// everything, the certificate included, comes from GetConfigForClient
+		inner := srvConf.Clone()
+		if o["tls"] == "mtls-getconfig" {
+			inner.ClientAuth = tls.RequireAndVerifyClientCert
+		}
+		outer := &tls.Config{MinVersion: tls.VersionTLS12,
+			GetConfigForClient: func(*tls.ClientHelloInfo) (*tls.Config, error) { return inner, nil }}
+		runOpts = append(runOpts, gldap.WithTLSConfig(outer))
 	}
 	addr := o["addr"]
 	switch addr {
